@@ -184,6 +184,13 @@ func (c scen) run(ctx *hx.Ctx) *hx.ScenarioResult {
 	if w := stack.WorldOf(ref2); w != nil && ref2.Status() == sched.Finished && ref2.Crash == nil {
 		platformRef = w.ActorTrace(ref2.Values["rec"].(*rec).mark) + ghostOutcome(w) + w.PlatformTrace(ref2.Values["rec"].(*rec).mark)
 	}
+	ref2How := ""
+	if platformRef == "" {
+		ref2How = ref2.Status().String()
+		if ref2.Crash != nil {
+			ref2How = "crash: " + fmt.Sprint(ref2.Crash)
+		}
+	}
 	cleanR()
 
 	cfg := c.config(true)
@@ -196,6 +203,10 @@ func (c scen) run(ctx *hx.Ctx) *hx.ScenarioResult {
 		}
 		if e.Status() != sched.Finished {
 			return e.Status().String(), "", &sched.Failure{Clause: "1", Sig: "hang", Msg: "hang: " + fmt.Sprint(e.Blocked) + "\n" + w.Render(false)}
+		}
+		if pristine != "" && platformRef == "" {
+			// the same suffix completes on a fresh emulator but not after one healthy invocation and an explicit reset
+			return "ref2-fails", "", &sched.Failure{Clause: "1", Sig: "suffix-fails-after-plain-reset", Msg: "the suffix completes on a fresh emulator; after one healthy invocation and an explicit reset (default schedule) it ends as: " + ref2How}
 		}
 		if pristine == "" || platformRef == "" {
 			return "noref", "", &sched.Failure{Clause: "engine", Sig: "no-reference", Msg: "the reference runs did not finish"}
